@@ -350,9 +350,12 @@ impl<const N: usize> PublicKey<N> {
                     }
                     int
                 })
-                .map(Felt::new)
                 .collect_vec(),
         );
+        if h.coefficients.iter().any(|&c| c >= Q as i16) {
+            return Err(FalconDeserializationError::BadFieldElementEncoding);
+        }
+        let h = h.map(|&c| Felt::new(c));
 
         Ok(PublicKey { h })
     }
